@@ -115,6 +115,21 @@ class Logger:
         return D.raw_table(self.env.incomplete_game) + bytes([self.env.steps_taken % 251]) + np.asarray(self.env.state).tobytes()
 
     def event(self, op, a=0, ret=None, exc="", undo_bits=-1, ranks=None):
+        try:
+            return self._event(op, a, ret, exc, undo_bits, ranks)
+        except D.DriverError:
+            if self.mode != "exact":
+                raise                      # float families: a drawn game left the logging grid, the trace is dropped by the caller
+            # exact games in, unloggable values out: data for the specification
+            n = self.n
+            z = [0] * 2 ** n
+            na = len(self.env.explorable_coalitions)
+            env = {"k": z, "lo": z, "up": z, "steps": 0, "hid": z, "draws": len(self.counting.games), "mask": [0] * na, "obs": [[0, 0]] * na,
+                   "gap": [0, 0], "done": 0, "deg": 0, "pure": 1}
+            return {"op": op, "a": int(a), "exc": exc or "UnloggableOutput", "solver": "", "ret_obs": [], "ret_gap": [0, 0], "ret_done": -1,
+                    "ret_info": -1, "undo_bits": undo_bits, "ranks": ranks or [], "lin_mask": [], "lin_obs": [], "env": env}
+
+    def _event(self, op, a=0, ret=None, exc="", undo_bits=-1, ranks=None):
         hidden = self.env.full_game.get_values()
         ev = {"op": op, "a": int(a), "exc": exc, "solver": "", "ret_obs": [], "ret_gap": [0, 0], "ret_done": -1, "ret_info": -1,
               "undo_bits": undo_bits, "ranks": ranks or [], "lin_mask": [], "lin_obs": []}
@@ -375,11 +390,11 @@ def main():
                     else:
                         v = D.random_sam_game(n, rng)
                     games_f.append([float(x) for x in v])
-                if rng.random() < 0.1:
-                    games_f = [[x * 2.0 ** -30 for x in g] for g in games_f]      # very small magnitude, still exact
                 if rng.random() < 0.15 and cls == "SA":      # an additive game: surplus exactly 0
                     w = [rng.randint(0, 5) for _ in range(n)]
                     games_f[1] = [float(sum(w[j] for j in range(n) if c >> j & 1)) for c in range(2 ** n)]
+                if rng.random() < 0.1:
+                    games_f = [[x * 2.0 ** -30 for x in g] for g in games_f]      # very small magnitude, still exact (all games of the trace alike)
                 mode = "exact"
                 scale = 1
                 while any(x * scale != round(x * scale) for g in games_f for x in g):
@@ -405,9 +420,9 @@ def main():
             plan = make_plan(rng, n, a.kind, nact)
             try:
                 events = drive(lg, rng, plan, solver, solver_name)
+                games_logged = [lg.arr(g.get_values()) for g in counting.games]
             except D.DriverError:
-                continue          # a drawn game left the logging grid (quant mode only): trace dropped, counted below
-            games_logged = [lg.arr(g.get_values()) for g in counting.games]
+                continue          # a drawn game left the logging grid (float families): trace dropped
             traces.append({"tid": tid, "n": n, "mode": mode, "tol": tol, "tol2": tol2, "lintol": 0 if mode == "exact" else 2 ** n,
                            "comp": comp, "r": r, "gap": gapname, "budget": -1 if budget is None else budget, "cls": cls,
                            "initial": D.minimal(n), "linear": int(linear), "solver": solver_name,
